@@ -95,7 +95,7 @@ theorem readLines_terminated (ls : List (List Char)) (h : ∀ l ∈ ls, '\n' ∉
         simp [List.flatMap_cons]
       rw [this, splitC_append _ _ _ (h a (by simp)), ih (fun l hl => h l (List.mem_cons_of_mem _ hl))]
       rfl
-  unfold readLines
+  unfold readLines readLinesBy
   rw [key ls (fun l hl => (h l hl).1)]
   simp only [List.dropLast_concat, List.getLast?_concat, List.append_nil]
   induction ls with
@@ -104,6 +104,16 @@ theorem readLines_terminated (ls : List (List Char)) (h : ∀ l ∈ ls, '\n' ∉
     simp only [List.map_cons]
     rw [dropCR_of_not_mem a (h a (by simp)).2, ih (fun l hl => h l (List.mem_cons_of_mem _ hl))]
 
+/-- a text without "\n" is one unterminated line: delivered unless it is empty — or, in the code as it is,
+    fills the buffer exactly -/
+theorem readLinesBy_unterminated (d : Bool) (l : List Char) (h : '\n' ∉ l) (hne : l ≠ []) :
+    readLinesBy d l = if d && l.length % bufSize == 0 then [] else [l] := by
+  unfold readLinesBy
+  rw [splitC_of_not_mem _ _ h]
+  cases l with
+  | nil => exact absurd rfl hne
+  | cons x r => simp
+
 theorem cleanName_spec {n : String} (h : cleanName n = true) :
     ',' ∉ n.toList ∧ '\n' ∉ n.toList ∧ '\r' ∉ n.toList := by
   simpa [cleanName, and_assoc] using h
@@ -111,7 +121,8 @@ theorem cleanName_spec {n : String} (h : cleanName n = true) :
 /-- the group file format is faithful: what `renderGroups` writes, `readIdenticalGroupFile` reads -/
 theorem readGroupFile_render' (gs : List (List String)) (hne : ∀ g ∈ gs, g ≠ [])
     (hc : ∀ g ∈ gs, ∀ n ∈ g, cleanName n = true) : readGroupFile (renderGroups gs) = gs := by
-  unfold readGroupFile renderGroups
+  unfold readGroupFile readGroupFileBy renderGroups
+  show List.map _ (readLines _) = gs
   rw [String.toList_ofList]
   have e : (gs.flatMap fun g => joinC ',' (g.map String.toList) ++ ['\n']) =
       ((gs.map fun g => joinC ',' (g.map String.toList)).flatMap fun l => l ++ ['\n']) := by
